@@ -447,6 +447,22 @@ def d5(cx: Cx, ob: Ob) -> None:
                 # next((upgrades[k] for k in [canonical, *synonyms] if k in upgrades), None): first hit in list order
                 comp = t[2][0]
                 tgt, it, ifs = comp[3][0]
+                get_t = ("call", ("attr", ups, "get"), (tgt,), ())
+                line_ = ctx.path.out[2]
+                if comp[2] == get_t and not ifs:
+                    ob.violate(
+                        fn.qualname,
+                        where(fn, line_),
+                        f"{hname} takes `next(...)` of the looked-up values themselves (`{show(comp[2])[:40]}` for every name, no filter): next() stops at the FIRST name whether or not the mapping has it, so only the first of `{show(it)[:40]}` is ever consulted",
+                        witness="a record with two synonyms and a mapping keyed by the second: the entry is ignored",
+                        detail="first-only",
+                    )
+                    if op(it) == "attr" and it[1] == rec:
+                        order.append(((line_, 0), it[2]))
+                    continue
+                if comp[2] in (("item", ups, tgt), get_t) and ifs == (("cmp", "in", tgt, ups),) and op(it) == "attr" and it[1] == rec:
+                    order.append(((line_, 0), it[2]))
+                    continue
                 if comp[2] == ("item", ups, tgt) and ifs == (("cmp", "in", tgt, ups),) and op(it) in ("list", "tuple"):
                     pos = 0
                     for e in it[1]:
